@@ -310,6 +310,54 @@ theorem C13_cse_meta :
     Gen.cseParams "mod" = [0, 1] ∧ Gen.cseParams "if_" = [0, 1, 2] ∧ Gen.cseParams "isnumber" = [0] ∧
     Gen.cseParams "sign" = [0] ∧ Gen.cseParams "abs_" = [0] ∧ Gen.cseParams "exact" = [0, 1] := by decide
 
+/-! ## S3 under nested evaluations — the context stack -/
+
+/-- **C13 (S3, context discipline)**: for ANY nesting of evaluations (any depth, any mix of array formulas and
+    ordinary cells, any stack to start from) the stack is restored after the evaluations, and every evaluation's
+    fit_to_range sees exactly that evaluation's own context — the inner evaluations an array formula triggers
+    (uncomputed precedent chains, other array formulas) never change the target it is fitted to. -/
+theorem C13_ctx_stack (f : Forest) (st : List Ctx) :
+    (runForest f st).1 = st ∧ ∀ p ∈ (runForest f st).2, p.2 = p.1 := by
+  induction f generalizing st with
+  | nil => simp [runForest]
+  | cons c ch sib ih1 ih2 =>
+    simp only [runForest]
+    obtain ⟨h1, h1'⟩ := ih1 (c :: st)
+    rw [h1]
+    simp only [List.tail_cons, List.headD_cons]
+    obtain ⟨h2, h2'⟩ := ih2 st
+    refine ⟨h2, ?_⟩
+    intro p hp
+    rcases List.mem_append.mp hp with h | h
+    · exact h1' p h
+    · rcases List.mem_cons.mp h with h | h
+      · subst h; rfl
+      · exact h2' p h
+
+/-- **C13 (S3, nested)**: an array formula over an h×w target, whatever evaluations `children` it triggers first and
+    whatever surrounds it, is fitted to ITS target: the value has exactly the target's shape. -/
+theorem C13_nested_fit (children siblings : Forest) (st : List Ctx) (h w : Nat) (res : Opnd)
+    {rh rw : Nat} (hr : Rect (toArr res) rh rw) (hrh : 0 < rh) :
+    ∀ p ∈ (runForest (.cons (some (h, w)) children siblings) st).2, p.1 = some (h, w) →
+      fitCtx p.2 res = .arr (fitToRange res h w) ∧ Rect (toArr (fitCtx p.2 res)) h w := by
+  intro p hp hown
+  have := (C13_ctx_stack (.cons (some (h, w)) children siblings) st).2 p hp
+  rw [this, hown]
+  exact ⟨rfl, C13_fit_shape res hr hrh h w⟩
+
+/-- why a stack is needed: with only "current + one saved" slots (enter: saved := cur, cur := c; exit: cur := saved)
+    the outermost of three nested evaluations is fitted with its child's context -/
+example :
+    let enter (s : Ctx × Ctx) (c : Ctx) : Ctx × Ctx := (c, s.1)
+    let exit (s : Ctx × Ctx) : Ctx × Ctx := (s.2, s.2)
+    let s0 : Ctx × Ctx := (none, none)
+    let sA := enter s0 (some (2, 3))      -- array formula
+    let sB := enter sA none               -- its precedent B1
+    let sC := enter sB none               -- B1's precedent C1
+    (exit (exit sC)).1 ≠ some (2, 3) := by decide
+-- the stack model: any chain depth below the array formula leaves its context intact
+example : (List.range 5).all (fun d => seenByArrayFormula 2 3 d 2 == some (2, 3)) = true := by decide
+
 /-! ## Non-vacuity: concrete instances of the hypotheses, evaluated by the model -/
 
 private def n (k : Int) : Val := .num k
